@@ -278,10 +278,9 @@ Definition validated_payload_length (h : std_header) (remaining : N) : vpl :=
 (* ---------- dlt_message (parse.rs:822-915) ---------- *)
 Inductive parsed_message := Item (m : message) | FilteredOut (n : N) | Invalid.
 
-Definition dlt_message (input : list byte) (f : option processed_filter) (with_sh : bool)
-  : pres parsed_message :=
-  let* (shs, after_sh) :=
-    (if with_sh then dlt_storage_header input else POk None input) in
+(* everything after the (optional) storage header *)
+Definition dlt_message_after (shs : option (storage_header * N)) (after_sh : list byte)
+    (f : option processed_filter) : pres parsed_message :=
   let* (header, after_std) := dlt_standard_header after_sh in
   let plr := validated_payload_length header (len after_sh) in
   let* (ext, after_headers) :=
@@ -300,6 +299,12 @@ Definition dlt_message (input : list byte) (f : option processed_filter) (with_s
       let* (p, i) := dlt_payload (h_endian header) after_headers verbose payload_length noar mt in
       POk (Item (mkMsg (option_map fst shs) header ext p)) i
   end.
+
+Definition dlt_message (input : list byte) (f : option processed_filter) (with_sh : bool)
+  : pres parsed_message :=
+  let* (shs, after_sh) :=
+    (if with_sh then dlt_storage_header input else POk None input) in
+  dlt_message_after shs after_sh f.
 
 (* ---------- skip_storage_header / dlt_consume_msg (parse.rs:992-1018) ---------- *)
 Definition skip_storage_header (input : list byte) : pres N :=
